@@ -72,6 +72,17 @@ def run_case(case):
                                     "py": [x.__name__ for x in c.__mro__[1:] if id(x) in mmcls]}
         except Exception as ex:
             out["classes"][name] = {"type": "missing:" + type(ex).__name__, "inh": []}
+    if case.get("nomm"):
+        # the non-default variant of the provider: lookup through parser._instances instead of the tree search
+        from textx.scoping.providers import PlainName
+        mm.register_scope_providers({"*.*": PlainName(multi_metamodel_support=False)})
+    other_model = None
+    if case.get("other_text"):
+        # another model of the same metamodel, loaded before and kept alive: its objects carry the same names
+        try:
+            other_model = mm.model_from_str(case["other_text"])
+        except Exception as ex:
+            return {"harness": "loading the other model failed: %s: %s" % (type(ex).__name__, ex)}
     b = case.get("builtins")
     keys = {}
     if b is not None:
@@ -140,6 +151,7 @@ def run_case(case):
                 res.append(target(v))
     refs_of(model)
     out["ok"] = res
+    out["other_alive"] = other_model is not None
     return out
 
 
